@@ -193,7 +193,8 @@ def _run_circus_disc(S, spec: dict) -> dict:
 def _run_bisect_script(S, spec: dict) -> dict:
     """`VariableDensityPoissonMaskFunc.poisson` with the rasterisation kernel `_poisson` replaced by a
     scripted stand-in: the k-th evaluation produces a mask whose acceleration is within tolerance /
-    too low / too high as `script[k]` says (0 / 1 / 2; `2` after the script ends).  Returns the number
+    too low / too high as `script[k]` says (0 / 1 / 2; `2` after the script ends) — or, with
+    `spec["threshold"]`, too low below that slope and too high from it on.  Returns the number
     of evaluations and the last slope (exact: read back from `radius_x` at a cell with r = 1)."""
     import numpy as np
 
@@ -207,6 +208,8 @@ def _run_bisect_script(S, spec: dict) -> dict:
         state["calls"] += 1
         state["slope"] = float(rx[0, ny // 2]) - 1.0
         v = script[k] if k < len(script) else 2
+        if spec.get("threshold") is not None:      # verdict as a function of the slope
+            v = 1 if state["slope"] < spec["threshold"] else 2
         flat = mask.reshape(-1)
         if v == 0:
             flat[:target] = 1
